@@ -410,11 +410,14 @@ theorem verifyThresholds_rel (env : Env K) (ord ord' : Ord) (h : ord.Valid) (h' 
     obtain ⟨hp, hn⟩ := goodOf_perm env ord ord' h h' L loaded st hnd
     simp only [verifyThresholds]
     change OptRel Rel2
-      (okPart (if (goodOf env ord L loaded st).length < st.threshold then .err 4
+      (okPart (if (decide ((goodOf env ord L loaded st).length < st.threshold) || (lookup st.name acc).isSome) = true then .err 4
         else verifyThresholds env ord L loaded rest (upsert st.name (goodOf env ord L loaded st) acc)))
-      (okPart (if (goodOf env ord' L loaded st).length < st.threshold then .err 4
+      (okPart (if (decide ((goodOf env ord' L loaded st).length < st.threshold) || (lookup st.name acc').isSome) = true then .err 4
         else verifyThresholds env ord' L loaded rest (upsert st.name (goodOf env ord' L loaded st) acc')))
-    rw [← hp.length_eq]
+    have hsome : (lookup st.name acc).isSome = (lookup st.name acc').isSome := by
+      have := hr.lookup st.name
+      cases h1 : lookup st.name acc <;> cases h2 : lookup st.name acc' <;> simp [h1, h2, OptRel] at this ⊢
+    rw [← hp.length_eq, hsome]
     split
     · simp [OptRel]
     · exact ih _ _ (hr.upsert _ hp hn)
